@@ -579,6 +579,14 @@ func generate(c *GenCtx) []Op {
 		genCorpus(c)
 		genRandom(c, "rand", c.n(20000, 400000), 3)
 	}
+	if c.Prop != "C07" {
+		full := map[string]bool{"C01": true, "C02": true, "C03": true, "C04": true, "C09": true, "C11": true, "C12": true, "C13": true, "C16": true}
+		if full[c.Prop] {
+			genHarvest(c, 1)
+		} else {
+			genHarvest(c, 4)
+		}
+	}
 	genObservers(c)
 	return c.ops
 }
